@@ -47,10 +47,16 @@ class BidsFileGroup:
             bids_obj.set_contents(content_info=x)
 
         self.datafile_dict = self._make_datafile_dict()
+        merged_sidecars = {}   # one merged sidecar per distinct inheritance chain
         for bids_obj in self.datafile_dict.values():
+            # Merge the chain of sidecars applicable to this data file (not the chain of its last sidecar).
             sidecar_list = self.get_sidecars_from_path(bids_obj)
             if sidecar_list:
-                bids_obj.sidecar = self.sidecar_dict[sidecar_list[-1]]
+                key = tuple(sidecar_list)
+                if key not in merged_sidecars:
+                    merged_sidecars[key] = BidsSidecarFile(sidecar_list[-1])
+                    merged_sidecars[key].set_contents(content_info=sidecar_list)
+                bids_obj.sidecar = merged_sidecars[key]
 
     def get_sidecars_from_path(self, obj):
         """ Return applicable sidecars for the object.
